@@ -16,9 +16,23 @@ def getRat (j : Json) : Except String Rat := do
 /-- `v.as_f64().or_else(|| v.as_str().and_then(|s| s.parse().ok()))` for the plain decimal
 strings the harness generates -/
 def ratOfString (s : String) : Option Rat :=
-  match Json.parse s with
-  | .ok (.num n) => some (ratOfJsonNumber n)
-  | _ => none
+  -- plain decimals (leading zeros allowed, as `str::parse::<f64>` allows them), else JSON syntax
+  let (neg, body) := if s.startsWith "-" then (true, (s.drop 1).toString) else (false, s)
+  let plain : Option Rat :=
+    match body.splitOn "." with
+    | [i] => if i.isEmpty then none else i.toNat?.map (fun n => (n : Rat))
+    | [i, f] =>
+      if i.isEmpty && f.isEmpty then none else
+      match (if i.isEmpty then some 0 else i.toNat?), (if f.isEmpty then some 0 else f.toNat?) with
+      | some a, some b => some ((a : Rat) + (b : Rat) / ((10 ^ f.length : Nat) : Rat))
+      | _, _ => none
+    | _ => none
+  match plain with
+  | some v => some (if neg then -v else v)
+  | none =>
+    match Json.parse s with
+    | .ok (.num n) => some (ratOfJsonNumber n)
+    | _ => none
 
 def getRatLoose (j : Json) : Option Rat :=
   match j with
@@ -96,6 +110,77 @@ def parseBounds (j : Json) (k : String) : Except String (Option (Rat × Rat)) :=
 
 def defaultPercents : List Rat := [1, 5, 25, 50, 75, 95, 99]
 
+/-- `parse_interval_seconds`: leading digits/dots, then one of "", s, ms, m, h, d, w -/
+def parseIntervalSeconds (spec : String) : Option Rat :=
+  let cs := spec.toList
+  let numPart := cs.takeWhile (fun c => c.isDigit || c == '.')
+  let suffix := String.ofList (cs.dropWhile (fun c => c.isDigit || c == '.'))
+  if numPart.isEmpty then none else
+  match ratOfString (String.ofList numPart) with
+  | none => none
+  | some v =>
+    match suffix with
+    | "" => some v
+    | "s" => some v
+    | "ms" => some (v / 1000)
+    | "m" => some (v * 60)
+    | "h" => some (v * 3600)
+    | "d" => some (v * 86400)
+    | "w" => some (v * 604800)
+    | _ => none
+
+def parseCalendar (spec : String) : Option CalUnit :=
+  match spec.toLower with
+  | "day" => some .day | "1d" => some .day
+  | "week" => some .week | "1w" => some .week
+  | "month" => some .month | "1m" => some .month
+  | "quarter" => some .quarter | "1q" => some .quarter
+  | "year" => some .year | "1y" => some .year
+  | _ => none
+
+/-- RFC 3339 `YYYY-MM-DDTHH:MM:SS[.fff](Z|±HH:MM)` → epoch milliseconds -/
+def parseRfc3339 (s : String) : Option Rat := do
+  let [datePart, rest] := s.splitOn "T" | none
+  let [ys, ms, ds] := datePart.splitOn "-" | none
+  let y ← ys.toNat?
+  let m ← ms.toNat?
+  let d ← ds.toNat?
+  -- zone
+  let (timePart, offMin) ←
+    if rest.endsWith "Z" then some ((rest.dropEnd 1).toString, (0 : Int))
+    else
+      match rest.splitOn "+" with
+      | [t, z] =>
+        match z.splitOn ":" with
+        | [zh, zm] => do some (t, ((← zh.toNat?) * 60 + (← zm.toNat?) : Nat))
+        | _ => none
+      | _ =>
+        match rest.splitOn "-" with
+        | [t, z] =>
+          match z.splitOn ":" with
+          | [zh, zm] => do some (t, -(((← zh.toNat?) * 60 + (← zm.toNat?) : Nat) : Int))
+          | _ => none
+        | _ => none
+  let [hs, mins, secs] := timePart.splitOn ":" | none
+  let h ← hs.toNat?
+  let mi ← mins.toNat?
+  let sec ← ratOfString secs
+  let days := daysFromCivil y m d
+  let secsTotal : Rat := (days * 86400 + h * 3600 + mi * 60 : Int) + sec - (offMin * 60 : Int)
+  some (secsTotal * 1000)
+
+/-- `parse_date`: RFC 3339, else a float -/
+def parseDate (s : String) : Option Rat :=
+  match parseRfc3339 s with
+  | some v => some v
+  | none => ratOfString s
+
+def parseDateBounds (j : Json) (k : String) : Option (Int × Int) := do
+  let b ← getOpt j k
+  let mn ← parseDate (← optStr b "min")
+  let mx ← parseDate (← optStr b "max")
+  some (truncToInt mn, truncToInt mx)
+
 def partOfJson (j : Json) : Except String (Part String) := do
   match j with
   | .str s => return .str s
@@ -151,10 +236,14 @@ partial def parseAgg (fields : Json) (j : Json) : Except String (Agg String Stri
     let ranges := rs.toList.map (fun r => (optRat r "from", optRat r "to"))
     return .bucket (.range (← getStr j "field") ranges (optRat j "missing")) subs
   | "date_range" =>
-    -- bounds are numeric strings (epoch millis); `parse_date` falls back to `parse::<f64>()`
+    -- `parse_date` on the bounds; `missing`: string → `parse_date`, number → itself
     let rs ← getArr j "ranges"
-    let ranges := rs.toList.map (fun r => (optRat r "from", optRat r "to"))
-    return .bucket (.range (← getStr j "field") ranges (optRat j "missing")) subs
+    let ranges := rs.toList.map (fun r => ((optStr r "from").bind parseDate, (optStr r "to").bind parseDate))
+    let missing := match getOpt j "missing" with
+      | some (.str s) => parseDate s
+      | some (.num n) => some (ratOfJsonNumber n)
+      | _ => none
+    return .bucket (.range (← getStr j "field") ranges missing) subs
   | "histogram" =>
     let ext ← parseBounds j "extended_bounds"
     let hard ← parseBounds j "hard_bounds"
@@ -162,6 +251,24 @@ partial def parseAgg (fields : Json) (j : Json) : Except String (Agg String Stri
     let mdc := (optNat j "min_doc_count").getD (if hasBounds then 0 else 1)
     return .bucket (.hist (← getStr j "field") (← getRat (← j.getObjVal? "interval"))
       ((optRat j "offset").getD 0) mdc ext hard (optRat j "missing")) subs
+  | "date_histogram" =>
+    let iv : DInterval := match (optStr j "calendar_interval").bind parseCalendar with
+      | some u => .calendar u
+      | none =>
+        let secs := ((optStr j "fixed_interval").bind parseIntervalSeconds).getD 86400
+        .fixed (truncToInt (secs * 1000))
+    let offset : Int := match (optStr j "offset").bind parseIntervalSeconds with
+      | some sec => truncToInt (sec * 1000)
+      | none => 0
+    let missing : Option Int := ((optStr j "missing").bind parseDate).map truncToInt
+    return .bucket (.dhist (← getStr j "field") iv offset ((optNat j "min_doc_count").getD 0)
+      (parseDateBounds j "extended_bounds") (parseDateBounds j "hard_bounds") missing) subs
+  | "top_hits" =>
+    let sorts := getArrD j "sort"
+    let sort ← sorts.toList.mapM (fun sp => do
+      let f ← getStr sp "field"
+      return (f, getStrD sp "order" "asc" == "desc"))
+    return .topHits (← getNat j "size") (getNatD j "from" 0) sort
   | "filter" => return .bucket (.filter (← parsePred (← j.getObjVal? "filter"))) subs
   | "composite" =>
     let ss ← getArr j "sources"
@@ -204,6 +311,8 @@ partial def nodeToJson : Node String → Json
   | .vals vs => Json.mkObj [("t", "vals"), ("vals", Json.arr (vs.map ratToJson).toArray)]
   | .table rows => Json.mkObj [("t", "table"),
       ("rows", Json.arr (rows.map (fun r => Json.arr #[ratToJson r.1, ratToJson r.2])).toArray)]
+  | .hits total hs => Json.mkObj [("t", "hits"), ("total", total),
+      ("hits", Json.arr (hs.map (fun h => (h.2 : Json))).toArray)]
   | .buckets bs after => Json.mkObj [("t", "buckets"),
       ("buckets", Json.arr (bs.map (fun b => Json.mkObj [("key", keyToJson b.1), ("count", b.2.1),
         ("subs", Json.arr (b.2.2.map nodeToJson).toArray)])).toArray),
